@@ -84,7 +84,8 @@ def run(mut, tier='quick', props=None):
             s = s.replace("            return shebang_line + '\\n' + minified\n\n    return minified\n", "            minified = shebang_line + '\\n' + minified\n\n    _memo[source] = minified\n    return minified\n", 1)
         open(path, 'w').write(s)
         out = []
-        for prop in (props or [mut['prop']]):
+        default_props = ['C02', 'C03', 'C04', 'C05', 'C06', 'C07', 'C08', 'C09', 'C10', 'C01'] if mut['prop'] == '*' else [mut['prop']]
+        for prop in (props or default_props):
             env = dict(os.environ)
             env['VF_REPO'] = tmp
             p = subprocess.run([os.path.join(common.VERIF, 'check'), prop, '--tier', tier], env=env, stdout=subprocess.PIPE,
